@@ -252,10 +252,7 @@ impl<'a> Context<'a> {
             .unwrap();
         let cconv = self.project.get_calling_convention(extern_symbol);
         if extern_symbol.parameters.len() < cconv.integer_parameter_register.len() {
-            for index in [
-                extern_symbol.parameters.len(),
-                cconv.integer_parameter_register.len() - 1,
-            ] {
+            for index in extern_symbol.parameters.len()..cconv.integer_parameter_register.len() {
                 let param = state.get_register(&cconv.integer_parameter_register[index]);
                 let param =
                     state.substitute_global_mem_address(param, &self.project.runtime_memory_image);
